@@ -405,7 +405,8 @@ def walk_case(draw, shard, nshards):
         objs.append(draw(go.elements(elliptic=not hyp, hyperbolic=hyp, bodies=BODIES)))
     ops = []
     for _ in range(draw(st.integers(4, 14))):
-        ops.append(dict(op=draw(st.sampled_from(["set", "set", "copy", "infos", "twin", "reframe"])),
+        ops.append(dict(op=draw(st.sampled_from(["set", "set", "copy", "infos", "twin", "reframe", "clone"])),
+                        how=draw(st.sampled_from(["copy", "deepcopy", "pickle"])), by_object=draw(st.booleans()),
                         obj=draw(st.integers(0, n - 1)), form=draw(st.integers(0, 9)),
                         k=draw(st.integers(0, len(SISTER_K))), inplace=draw(st.booleans())))
     return dict(objs=objs, ops=ops)
@@ -418,7 +419,12 @@ def check_walk(case):
     svs, refs, ks, polar = [], [], [], []
     els = [dict(el) for el in case["objs"]]  # the elements of each state around its *current* central body
     mus = [mu_of(el["body"]) for el in els]
-    reframed = 0
+    reframed = cloned = 0
+    # every frame of this case exists before the first state is built (a pickle / deepcopy clone carries its
+    # own copy of the frame graph as it was when the clone was made)
+    for el in case["objs"]:
+        for k_ in SISTER_K:
+            sister_frame(el["body"], k_)
     for el in case["objs"]:
         mu = mu_of(el["body"])
         cart = tb.kep2cart(el["a"], el["e"], el["i"], el["raan"], el["argp"], el["nu"], mu)
@@ -461,11 +467,28 @@ def check_walk(case):
                 ks[i] = max(ks[i], kappa(el) * (polar[i] if svs[i].form.name in ("spherical", "cylindrical") else 1))
                 steps[i] += 1
                 reframed += 1
+        elif op["op"] == "clone":
+            # the state is replaced by its stdlib copy / deepcopy / pickle clone: same numbers, same form
+            import copy
+            import pickle
+
+            old = svs[i]
+            svs[i] = {"copy": copy.copy, "deepcopy": copy.deepcopy,
+                      "pickle": lambda x: pickle.loads(pickle.dumps(x))}[op.get("how", "pickle")](old)
+            if not np.array_equal(np.asarray(svs[i]), np.asarray(old)) or svs[i].form.name != old.form.name:
+                raise Violation("clone-differs", f"op {n}: the {op.get('how')} clone of object {i} ({old.form.name}) holds "
+                                f"{np.asarray(svs[i]).tolist()} ({svs[i].form.name}), the original {np.asarray(old).tolist()}", op=n)
+            cloned += 1
         elif op["op"] == "set":
-            svs[i].form = form
+            from beyond.orbits.forms import get_form
+
+            # the form spelled by name or given as the Form object itself
+            svs[i].form = get_form(form) if op.get("by_object") else form
             steps[i] += 1
         elif op["op"] == "copy":
-            svs[i] = svs[i].copy(form=form)
+            from beyond.orbits.forms import get_form
+
+            svs[i] = svs[i].copy(form=get_form(form) if op.get("by_object") else form)
             steps[i] += 1
         elif op["op"] == "twin":
             # a copy in another form, dropped: the original must not follow it
@@ -494,6 +517,8 @@ def check_walk(case):
         cls.append("ellipse+hyperbola")
     if reframed:
         cls.append("central-body-changed")
+    if cloned:
+        cls.append("cloned")
     return dict(nt=max(steps) >= 2, cls=cls, ratio=worst)
 
 
